@@ -1199,4 +1199,15 @@ def rowOf (owner dest : String) : Option OptRow := optRows.find? (fun r => r.own
 theorem rowOf_mem {owner dest : String} {row : OptRow} (h : rowOf owner dest = some row) : row ∈ optRows :=
   List.mem_of_find?_eq_some h
 
+
+/-! rows used by the witnesses -/
+/-- the first sub-command of the table (the witnesses do not depend on the sub-command) -/
+def cmd0 : OptCommand := optCommands.head!
+
+def vfyPort : OptRow := (rowOf "vfy" "port").get (by decide)
+def s3cKeyId : OptRow := (rowOf "s3c" "key_id").get (by decide)
+def vfyNumericLabel : OptRow := (rowOf "vfy" "numeric_label").get (by decide)
+def cacheDirectory : OptRow := (rowOf "" "cache_directory").get (by decide)
+def keyRow : OptRow := (rowOf "" "key").get (by decide)
+
 end Replicat.Options
